@@ -335,7 +335,9 @@ def race_config(item):
         files = dict(_LAST_FS["files"])
         initial = {k: v[:len(v) // 2] for k, v in files.items() if k.endswith(".pickle")}
         if not initial:
-            raise core.HarnessError("cold start left no cache file in the race store: %r" % f0)
+            # nothing to tear: the other configurations show why (a single cold start that fails
+            # or writes no cache); run() insists that this never happens silently
+            return item, (0, [], 0)
 
     def mk(prefix):
         return race_execution(prefix, root, nproc, chunks, initial)
@@ -457,6 +459,7 @@ def run(ctx):
                  (root, 2, 1, None, None, "torn"), (root, 2, 2, 2, None, "torn"),
                  (root, 3, 1, 2, 6000, "torn")]
     rout = core.pmap(race_config, rplan, chunk=1)
+    skipped_torn = [ritem for ritem, (n, bad, nout) in rout if n == 0]
     for ritem, (n, bad, nout) in rout:
         root_, nproc, chunks, bound, mx = ritem[:5]
         start = ritem[5] if len(ritem) > 5 else "empty"
@@ -495,6 +498,9 @@ def run(ctx):
                 "same file (%s)" % (name, verdict.lower(), info),
                 {"part": "shipped-pickle", "file": name}))
     res.extra["package_dir_pickles"] = dict(verdicts)
+    if skipped_torn and not res.violations:
+        raise core.HarnessError("a cold start left no cache file to tear although nothing else is "
+                                "wrong: %r" % (skipped_torn,))
     res.evaluations = res.traces
     res.rule = ("(1) every byte prefix of the cache file (quick: a dense subset), zero-filled holes, "
                 "flipped bytes, non-dict pickle, other internal_version, left-over temporary file, in "
